@@ -15,8 +15,6 @@ import (
 	"github.com/bluenviron/mediacommon/v2/pkg/codecs/mpeg4audio"
 )
 
-//verif:stub (*github.com/bluenviron/mediacommon/v2/pkg/codecs/h265.SPS).Unmarshal verifStub_H265SPSUnmarshal
-//verif:stub (*github.com/bluenviron/mediacommon/v2/pkg/codecs/av1.SequenceHeader).Unmarshal verifStub_AV1SeqUnmarshal
 
 // VerifH_C09_codecs: whatever RFC 6381 string the muxer advertises for a track it accepts, the
 // client's variant selection must accept it (otherwise a Client can never read that Muxer).
